@@ -23,3 +23,27 @@ Definition subclass_of (a b: exn) : bool :=
 (* does `except <handler>` catch an exception whose class has the given bases? *)
 Definition catches (handler bases: list exn) : bool :=
   existsb (fun b => existsb (fun h => subclass_of b h) handler) bases.
+
+(* The statements emitted for the registry region of the field-mode dispatcher (DiscriminatedUnionUnpackerBuilder._add_body
+   after the hash test, and _add_register_variant_tags): one constructor per emitted line shape; NAME = the variant
+   method name, REG = the registry expression (`<holder>.<variants attr>`).  Meaning: coq/theories/DiscrEmit.v. *)
+Inductive estmt :=
+| SLookup                  (* __variant = REG[discriminator] *)
+| SOwnCheck                (* if 'NAME' not in __variant.__dict__: raise AttributeError *)
+| SBind                    (* unpack = __variant.NAME *)
+| SBindReg                 (* unpack = <attrs registry>[REG[discriminator]].NAME *)
+| SSetMap                  (* variants_map = REG *)
+| SForVariants (body: list estmt)                                  (* for variant in <variants>: *)
+| STry (body: list estmt) (handler: list exn) (hbody: list estmt)   (* try: ... except <handler>: ... *)
+| SRegOwn                  (* variants_map[variant.__dict__['<field>']] = variant *)
+| STags                    (* variant_tags = <tagger>(variant) *)
+| SIfList (a b: list estmt)                                        (* if type(variant_tags) is list: ... else: ... *)
+| SForTags (body: list estmt)                                      (* for varint_tag in variant_tags: *)
+| SRegTagVar               (* variants_map[varint_tag] = variant *)
+| SRegTagsVar              (* variants_map[variant_tags] = variant *)
+| SContinue                (* continue *)
+| SBuild                   (* the lines of _add_build_variant_unpacker: (re)build the variant's unpacker unless it is its own *)
+| SRetry                   (* unpack = variants_map[discriminator].NAME *)
+| SRetryReg                (* unpack = <attrs registry>[variants_map[discriminator]].NAME *)
+| SRaiseNotFound           (* raise SuitableVariantNotFoundError(...) from None *)
+| SReturnCall.             (* return unpack(value, ...) *)
